@@ -1,5 +1,6 @@
 import SuccinctlyVerif.Model.JqGuards
 import Driver.Util
+import Driver.C23
 namespace SV.Drv.C30
 open SV.Drv SV.JqGuards
 
@@ -23,6 +24,14 @@ def exec (a : List String) : String :=
   | ["guard", "repeat", len, n] => gshow (repeatString (parseNat len) (parseInt n) allocAll)
   | ["guard", "setpath", len, idx] => gshow (setpathLength (parseNat len) (parseInt idx) allocAll)
   | ["guard", "limit", n, m] => toString (limitCount (parseInt n) (parseNat m))
+  -- `evm`: the run of the program in the jq model (succinctly dialect), as for C23
+  | ["evm", p, i] =>
+    -- long run lines are exchanged as length + FNV-1a-64 of their bytes
+    let r := C23.exec ["ev", p, i]
+    if r.utf8ByteSize > 65536 then
+      let h := r.toUTF8.foldl (fun (h : UInt64) b => (h ^^^ b.toUInt64) * 0x100000001b3) 0xcbf29ce484222325
+      s!"LONG:{r.utf8ByteSize}:{SV.Jq.JNum.hex16 h}"
+    else r
   | _ => "NOPANIC"
 
 end SV.Drv.C30
